@@ -275,6 +275,7 @@ Lemma members_S : forall f off r acc,
   | (NxErr, _) => (ReadError, acc)
   | (NxNone, _) => (Done, acc)
   | (NxUnsup, _) => (Unsupported, acc)
+  | (NxFuel, _) => (Hang, acc)
   | (NxMem h od no, r1) =>
       if has_data (h_type h) then
         match fsr_loop bytes fread fskip false (S f) None od (h_size h) 0 r1 [] with
